@@ -148,6 +148,10 @@ Proof.
     destruct (existsb _ _ || live_at _ _); try tauto; try same_rows.
   - (* clean *) unfold do_clean_all. destruct (s_proc s) as [[| | | |]|] eqn:Hp; try tauto.
     destruct (any_live _); try tauto. intros H. unfold all_rows, txn_of in H. simpl in H. rewrite Hp in H. destruct H.
+  - unfold do_clean_index. destruct (s_proc s) as [[| | | |]|] eqn:Hp; try tauto.
+    destruct (any_live _); try tauto. intros H. unfold all_rows, txn_of in H. simpl in H. rewrite Hp in H. destruct H.
+  - unfold do_clean_dir. destruct (s_proc s) as [[| | | |]|] eqn:Hp; try tauto.
+    destruct (any_live _); try tauto. destruct (s_rows s) eqn:Hr; try tauto; try same_rows.
   - same_rows.
   - same_rows.
 Qed.
@@ -291,6 +295,12 @@ Proof.
     destruct (existsb _ _ || live_at _ _); simpl; intros H; apply in_or_app; now left.
   - unfold do_clean_all. destruct (s_proc s) as [[| | | |]|]; try (intros H; apply in_or_app; now left).
     destruct (any_live _); simpl; [intros H; apply in_or_app; now left | intros []].
+  - unfold do_clean_index. destruct (s_proc s) as [[| | | |]|]; try (intros H; apply in_or_app; now left).
+    destruct (any_live _); simpl; [intros H; apply in_or_app; now left | intros []].
+  - assert (E : s_rows (do_clean_dir k s) = s_rows s).
+    { unfold do_clean_dir. destruct (s_proc s) as [[| | | |]|]; try reflexivity.
+      destruct (any_live _); try reflexivity. destruct (s_rows s) eqn:Er; simpl; rewrite ?Er; reflexivity. }
+    rewrite E. intros H; apply in_or_app; now left.
   - simpl. intros H; apply in_or_app; now left.
   - simpl. intros H; apply in_or_app; now left.
 Qed.
